@@ -229,6 +229,7 @@ class Ctx(object):
             ev = S.Evaluator(self.fns, inline_depth=depth, inline_filter=inline_filter)
         ev.consts = self.consts
         ev.new_const = self.new_const
+        ev.new_helper = self.new_helper
         ev.obs = self.obs_fields()
         ev.obs_names = self.obs_field_names()
         ev.error_has_source = self.error_has_source
@@ -480,6 +481,44 @@ class Ctx(object):
         return out
 
 
+def _forwards_to(fn, by, is_new):
+    """The new function `fn` only forwards to (see apply_aliases), or None."""
+    body = fn['hir']
+    while body.get('k') == 'Block' and not body.get('stmts') and body.get('expr') is not None:
+        body = body['expr']
+    if body.get('k') != 'Block':
+        body = {'k': 'Block', 'stmts': [], 'expr': body}
+    skip = H.log_only_locals(fn['hir'], by, is_new)
+    stmts = []
+    for st in body.get('stmts', []):
+        if st['k'] == 'Let' and st.get('pat', {}).get('k') == 'Bind' and st['pat']['id'] in skip:
+            continue
+        if st['k'] in ('Semi', 'ExprStmt') and H.log_stmt(st['e'], by, is_new):
+            continue
+        stmts.append(st)
+    tail = body.get('expr')
+    call = None
+    if not stmts and tail is not None:
+        call = H.peel(tail)
+    elif len(stmts) == 1 and stmts[0]['k'] == 'Let' and stmts[0].get('pat', {}).get('k') == 'Bind' and stmts[0].get('init') is not None and stmts[0].get('els') is None \
+            and tail is not None and H.peel(tail).get('k') == 'Local' and H.peel(tail)['id'] == stmts[0]['pat']['id']:
+        call = H.peel(stmts[0]['init'])
+    if call is None or call.get('k') not in ('Call', 'MethodCall'):
+        return None
+    params = fn.get('params', [])
+    args = H.call_args(call)
+    if len(args) != len(params) or not params:
+        return None
+    for prm, a in zip(params, args):
+        a = H.peel(a)
+        while a.get('k') in ('AddrOf',) or (a.get('k') == 'Unary' and a.get('op') == 'Deref'):
+            a = H.peel(a['e'])
+        if prm.get('k') != 'Bind' or a.get('k') != 'Local' or a['id'] != prm['id']:
+            return None
+    g = S.norm_path(H.callee_path(call) or '')
+    return g if g in by else None
+
+
 def apply_aliases(facts):
     """A function of the oracle vocabulary that is gone, while exactly one function unknown to the vocabulary
     has its signature in the same top-level module, was renamed or moved: read the new one under the old name
@@ -497,8 +536,6 @@ def apply_aliases(facts):
     for fn in facts['fns']:
         by[S.norm_path(fn['path'])] = fn
     missing = [m for m in sigs if m not in by]
-    if not missing:
-        return {}
     new = [p for p, fn in by.items() if p not in sigs and fn.get('dk') in ('Fn', 'AssocFn') and 'hir' in fn and not fn.get('mac') and not fn.get('cfg_test')]
     def bare(t):
         # type string without generic arguments: a type that lost or gained a parameter is still that type
@@ -524,6 +561,20 @@ def apply_aliases(facts):
     for m, n in cand.items():
         used.setdefault(n, []).append(m)
     ren = {n: ms[0] for n, ms in used.items() if len(ms) == 1}
+    # a vocabulary function that became a forwarder -- it hands its own parameters, in order, to one new function of
+    # the same signature and returns that result, doing nothing else but logging -- is that function under its old name
+    fwd = {}
+    is_new = lambda p_: p_ not in sigs
+    for m in sigs:
+        fn = by.get(m)
+        if fn is None or 'hir' not in fn or fn.get('mac'):
+            continue
+        g = _forwards_to(fn, by, is_new)
+        if g is not None and g in new and g not in ren and sig(by[g]) == sig(fn) and g not in fwd.values():
+            fwd[m] = g
+    for m, g in fwd.items():
+        facts['fns'] = [f_ for f_ in facts['fns'] if S.norm_path(f_['path']) != m and not S.norm_path(f_['path']).startswith(m + '::{closure')]
+        ren[g] = m
     if not ren:
         return {}
 
